@@ -12,11 +12,13 @@
 EXTENDS Smtp, Policy, Json, TLC, TLCExt, IOUtils, SequencesExt
 
 TraceLog == ndJsonDeserialize(IOEnv.VERIF_TRACE)
-Allowed == IF "VERIF_ALLOWED" \in DOMAIN IOEnv THEN IOEnv.VERIF_ALLOWED ELSE ""
+AllowedKeys == {r.key : r \in ToSet(ndJsonDeserialize(IOEnv.VERIF_ALLOWED_FILE))}
 
 VARIABLES l, cfg
 tvars == <<st, from, rcpts, boxes, maxRcpt, reply, l, cfg>>
 
+Dev(key) == key \in AllowedKeys /\ PrintT(<<"DEVIATION", key, l>>)
+FailSet == IF "failMailbox" \in DOMAIN cfg /\ cfg.failMailbox # "" THEN {cfg.failMailbox} ELSE {}
 Ev == TraceLog[l]
 Is(a) == l <= Len(TraceLog) /\ Ev.a = a /\ l' = l + 1
 Cmd(c) == Is("cmd") /\ Ev.c = c
@@ -81,16 +83,30 @@ ExpectedMsg ==
     [from |-> IF Ev.fromhdr = "" THEN from.addr ELSE Ev.fromhdr,
      to |-> IF Ev.tohdr THEN Ev.to ELSE [i \in DOMAIN rcpts |-> rcpts[i].addr],
      subject |-> Ev.subject, bodyhash |-> Ev.bodyhash]
+BodyD == [parse |-> Ev.parse, fits |-> Ev.size <= cfg.maxBytes, fails |-> FailSet,
+          hook |-> IF Has("hook") /\ Ev.hook.action \in {"replace", "replace-keep"}
+                   THEN [action |-> Ev.hook.action,
+                         mailboxes |-> IF Ev.hook.action = "replace" THEN Ev.hook.mailboxes ELSE <<>>,
+                         msg |-> [from |-> Ev.hook.from, to |-> Ev.hook.to, subject |-> Ev.hook.subject,
+                                  bodyhash |-> Ev.bodyhash]]
+                   ELSE [action |-> "none"]]
+(* known departure (fault injection): when the store refuses the message for one *)
+(* mailbox in the middle of the fan-out the transaction is answered 451, but the *)
+(* copies for the mailboxes before it stay (the contract: a refused transaction  *)
+(* adds nothing)                                                                 *)
+RECURSIVE Before(_, _)
+Before(ts, bad) == IF ts = <<>> \/ Head(ts) \in bad THEN <<>> ELSE <<Head(ts)>> \o Before(Tail(ts), bad)
+DevPartialFanout ==
+    /\ st = "DATA" /\ Ev.parse /\ Ev.size <= cfg.maxBytes /\ StoreFails(BodyD)
+    /\ Before(Targets(BodyD), FailSet) # <<>>
+    /\ Dev("C01.partial-fanout-on-store-failure")
+    /\ st' = "READY" /\ ClearEnvelope
+    /\ boxes' = DeliverTo(boxes, Before(Targets(BodyD), FailSet),
+                          IF BodyD.hook.action = "none" THEN ExpectedMsg ELSE BodyD.hook.msg)
+    /\ Answer(Fail)
 TrBody ==
     /\ Cmd("body")
-    /\ Body(ExpectedMsg,
-            [parse |-> Ev.parse, fits |-> Ev.size <= cfg.maxBytes,
-             hook |-> IF Has("hook") /\ Ev.hook.action \in {"replace", "replace-keep"}
-                      THEN [action |-> Ev.hook.action,
-                            mailboxes |-> IF Ev.hook.action = "replace" THEN Ev.hook.mailboxes ELSE <<>>,
-                            msg |-> [from |-> Ev.hook.from, to |-> Ev.hook.to, subject |-> Ev.hook.subject,
-                                     bodyhash |-> Ev.bodyhash]]
-                      ELSE [action |-> "none"]])
+    /\ Body(ExpectedMsg, BodyD) \/ DevPartialFanout
     /\ Done
 TrRset == /\ Cmd("rset") /\ Rset /\ Done
 TrHarmless == /\ Is("cmd") /\ Ev.c \in {"noop", "vrfy"} /\ Harmless /\ Done
@@ -111,7 +127,7 @@ TrEnd == /\ Is("end") /\ Ev.extra = 0 /\ Ev.returned
 (* acknowledged stays; the message whose data had been transmitted           *)
 (* completely (Ev.complete, only possible for a body step) may or may not    *)
 (* have been delivered; nothing else changes                                 *)
-BodyDec == [parse |-> Ev.parse, fits |-> Ev.size <= cfg.maxBytes, hook |-> [action |-> "none"]]
+BodyDec == [parse |-> Ev.parse, fits |-> Ev.size <= cfg.maxBytes, hook |-> [action |-> "none"], fails |-> FailSet]
 TrCut == /\ Is("cut") /\ Ev.returned
          /\ \/ Cut
             \/ /\ Ev.c = "body" /\ Ev.complete /\ st = "DATA"
